@@ -851,7 +851,14 @@ int lp_upolynomial_divides(const lp_upolynomial_t* p, const lp_upolynomial_t* q)
 
   assert(p->K == q->K);
 
-  // Special case
+  // Special cases
+  if (lp_upolynomial_is_zero(q)) {
+    // everything divides 0
+    return 1;
+  }
+  if (lp_upolynomial_is_zero(p)) {
+    return 0;
+  }
   if (lp_upolynomial_degree(p) > lp_upolynomial_degree(q)) {
     return 0;
   }
@@ -878,6 +885,17 @@ int lp_upolynomial_divides(const lp_upolynomial_t* p, const lp_upolynomial_t* q)
         lp_upolynomial_t* rem = 0;
         lp_upolynomial_div_pseudo(&div, &rem, q, p);
         result = lp_upolynomial_is_zero(rem);
+        if (result && K == lp_Z) {
+          // lc(p)^k * q = div * p: the quotient div/lc(p)^k must have integer coefficients
+          lp_integer_t lc_pow;
+          integer_construct(&lc_pow);
+          integer_pow(lp_Z, &lc_pow, lp_upolynomial_lead_coeff(p), lp_upolynomial_degree(q) - lp_upolynomial_degree(p) + 1);
+          size_t i;
+          for (i = 0; result && i < div->size; ++ i) {
+            result = integer_divides(lp_Z, &lc_pow, &div->monomials[i].coefficient);
+          }
+          integer_destruct(&lc_pow);
+        }
         lp_upolynomial_delete(div);
         lp_upolynomial_delete(rem);
       }
